@@ -4,12 +4,12 @@
 import json,sys
 pid=sys.argv[1]
 p=[json.loads(l) for l in open('/verif/properties.jsonl') if json.loads(l)['id']==pid][0]
-wt=f"/tmp/wt/{pid}"
+wt=sys.argv[2] if len(sys.argv)>2 else f"/tmp/wt/{pid}"
 print(f"""You are working on a scratch git worktree of the Go project couchbase/sync_gateway at {wt} (Couchbase Sync Gateway: syncs JSON documents between Couchbase Lite and Couchbase Server; revision trees, channel access control, change feeds, replication). Work ONLY inside {wt} and your output directory {wt}-out. Never read or write /repo or /verif.
 
 Shell environment for every command (no network; nothing can be downloaded):
   export PATH=/opt/veriftools/go1.26.8/bin:$PATH GOFLAGS=-mod=mod GOPROXY=off GOSUMDB=off GOTOOLCHAIN=local; unset GOWORK
-Tests run offline against the in-memory rosmar/walrus bucket, e.g. `go test -vet=off -count=1 -timeout 25m ./db/...` (the db and rest packages take several minutes each; use -run to iterate, then a full package run to confirm).
+Tests run offline against the in-memory rosmar/walrus bucket, e.g. `go test -vet=off -count=1 -timeout 25m ./db/...` (the db and rest packages take several minutes each; use -run to iterate, then a full package run to confirm). The machine is shared with other jobs, so timing-sensitive tests (TestActiveReplicatorMultiCollection, TestChangesFeedOnInheritedChannelsFromRoles*, TestLateSequenceErrorRecovery, TestPostChangesAdminChannelGrantRemovalWithLimit) can fail on the clean tree too, and auth TestInitOIDCClient / TestConcurrentSetConfig and base TestLogFilePathWritable always fail in this sandbox (no network / running as root); re-run a suspicious failure in isolation and on the clean tree before drawing a conclusion.
 
 PROPERTY ({pid}: {p['title']}):
 {p['statement']}
@@ -26,4 +26,4 @@ DELIVERABLES, for X in A, B, in {wt}-out/X/ :
   patch.diff   — `git diff` of the source change ONLY (not the demo test); must apply with `git apply` to a clean checkout
   the demo test file(s), plus a line in meta.json saying at which repo-relative path each belongs
   meta.json    — {{"property":"{pid}","summary":...,"mechanism":...,"needs_to_manifest":...,"files_touched":[...],"demo":{{"path":...,"run":"go test ..."}},"commands_run":[...],"results":{{"demo_with_change":"FAIL","demo_without_change":"PASS","packages_tested_with_change":[...],"all_passed":true}}}}
-When finished, restore the worktree to a clean state (`git checkout -- . && git clean -fd`) and reply with a short summary of A and B (what, where, why the suite misses it). If after serious effort you can only produce one, deliver one and say so.""")
+When finished, restore the worktree to a clean state (`git checkout -- . && git clean -fd`) and reply with a short summary of A and B (what, where, why the suite misses it). Separately, mention anything you noticed in the UNCHANGED code that already looks like a violation of this property (file:line and scenario), if any. If after serious effort you can only produce one, deliver one and say so.""")
